@@ -30,10 +30,19 @@ def run(check, pool, Task):
     for p, nr, how in (([[0, 1], [2]], 2, 'inner'), ([[0], []], 1, 'left'), ([[0], [1]], 2, 'left'), ([[0, 1]], 1, 'inner')):
         tasks.append(Task(f'_sjoin_dask_pandas pre-filter partitions={p} right rows={nr} how={how}', c06.q_sjoin_prefilter, (p, nr), {'how': how, 'timeout': cap - 30},
                           timeout=cap, meta={'kind': 'sj'}))
+    tasks.append(Task('DaskGeoSeries.partition_sindex is built from the bounds of all partitions, in order', c06.q_partition_sindex, (), timeout=120, meta={'kind': 'psi'}))
     res = pool(tasks)
     for t in tasks:
         r = res.get(t.name, {'status': 'error', 'detail': 'no result'})
         m = t.meta
+        if m['kind'] == 'psi' and r['status'] == 'violated':
+            bad, wit = replay_psi()
+            if bad:
+                v = check.violation('C06:partition_sindex', f"partition index keys are not partition numbers: {wit}", wit)
+                check.record(t.name, dict(r, status='known-finding' if v == 'known' else 'violated'), 'paths', m)
+            else:
+                check.record(t.name, dict(r, status='inconclusive', detail='did not reproduce'), 'paths', m)
+            continue
         if m['kind'] == 'tb' and r['status'] == 'sat':
             check.record(t.name, dict(r, status='inconclusive', detail='total_bounds over partitions differs from the union of the rows (no public-API replay for this obligation: '
                                                                       'needs a dask collection with the given partitioning)'), 'query', m)
@@ -58,6 +67,22 @@ def run(check, pool, Task):
             check.record(t.name, dict(r, status='inconclusive', detail='pre-filter drops a matching right row in the model; no public-API replay built for this obligation'), 'paths', m)
         else:
             check.record(t.name, r, 'paths' if m['kind'] != 'tb' else 'query', m)
+
+
+def replay_psi():
+    """real dask frame whose first partition holds only missing geometries: cx must still find the rows of the later partitions"""
+    import dask
+    import dask.dataframe as dd
+    import pandas as pd
+    import spatialpandas as sp
+    import spatialpandas.geometry as sg
+    parts = [sp.GeoDataFrame({'geometry': sg.MultiPointArray([None, None], dtype='float64'), 'id': [0, 1]}, index=pd.Index([0, 1])),
+             sp.GeoDataFrame({'geometry': sg.MultiPointArray([[0, 0], [1, 1]], dtype='float64'), 'id': [2, 3]}, index=pd.Index([2, 3])),
+             sp.GeoDataFrame({'geometry': sg.MultiPointArray([[5, 5], [6, 6]], dtype='float64'), 'id': [4, 5]}, index=pd.Index([4, 5]))]
+    with dask.config.set(scheduler='synchronous'):
+        ddf = dd.from_delayed([dask.delayed(lambda x: x)(p) for p in parts], meta=parts[0].iloc[:0])
+        got = sorted(int(x) for x in ddf.cx[4:7, 4:7].compute()['id'])
+    return got != [4, 5], {'got': got, 'expected': [4, 5], 'partitions': 'first partition all missing'}
 
 
 def replay_tb(partition, model):
